@@ -453,6 +453,9 @@ def gen_amax(rng, n):
         dim = _dim_list(rng, len(sh))
         if len(sh) == 0:
             dim = rng.choice([[], [0], [-1]])
+        if i % 5 == 0:                            # dim omitted: all dims
+            yield [tensor(rng, sh, dt, kind="rand"), None, bool(rng.getrandbits(1))], {}
+            continue
         yield [tensor(rng, sh, dt, kind="rand"), spec("int64", [len(dim)], dim), bool(rng.getrandbits(1))], {}
 
 
